@@ -104,7 +104,7 @@ def check_vector(ctx, rng, st, flags):
     try:
         fitter = st.fitter(bands)
     except Exception as exc:
-        ctx.violation('setup:fitter', 'Fitter() raised: %r' % (exc,), {'mode': mode})
+        ctx.raised(exc, 'setup:fitter', 'Fitter() raised: %r' % (exc,), {'mode': mode})
         return
     flux, err = draw_photometry(rng, st, flags)
     fitted = (flags == 1) | (flags == 4)
@@ -130,7 +130,7 @@ def check_vector(ctx, rng, st, flags):
         base = fit(flags, flux, err)
     except Exception as exc:
         if nontrivial:
-            ctx.violation('base:fit-raised', 'Fitter.fit raised: %r' % (exc,), wit)
+            ctx.raised(exc, 'base:fit-raised', 'Fitter.fit raised: %r' % (exc,), wit)
         else:      # a singular regression (too few fitted points) is outside C01/C02's quantifier: refusing it is not judged
             ctx.event('singular-vector-refused')
         return
@@ -171,7 +171,7 @@ def check_vector(ctx, rng, st, flags):
                     break
     except Exception as exc:
         if nontrivial:
-            ctx.violation('data-line:raised', 'reading / fitting the source from a data line raised: %r' % (exc,), wit)
+            ctx.raised(exc, 'data-line:raised', 'reading / fitting the source from a data line raised: %r' % (exc,), wit)
 
     # (0) the flags mean the same on a source object that carried other flags before: a live Source already fitted with `flags`
     #     is re-flagged (one fitted point or one limit becomes unused / plot-only) and fitted again; the result must be
@@ -193,8 +193,13 @@ def check_vector(ctx, rng, st, flags):
             reg = (flags2 == 1)
             fx3[reg] = flux[reg] * rng.uniform(0.5, 2.0, int(reg.sum()))
             er3[reg] = err[reg] * rng.uniform(0.5, 2.0, int(reg.sum()))
-            live.flux = fx3.copy()
-            live.error = er3.copy()
+            if rng.random() < 0.5:
+                fx3 = flux.copy()                 # only the errors are re-assigned
+                live.error = er3.copy()
+            else:
+                live.flux = fx3.copy()
+                fitter.fit(live)                  # (used between the two assignments)
+                live.error = er3.copy()
             rl3 = by_name(fitter.fit(live))
             rf3 = by_name(fit(flags2, fx3, er3))
             for name in rf3:
@@ -204,7 +209,7 @@ def check_vector(ctx, rng, st, flags):
                     break
         except Exception as exc:
             # the vector is regular and so is the re-flagged one: a fresh source with these flags fits, so must the live one
-            ctx.violation('reflagged:fit-raised', 'fitting a source object whose flags / values were re-assigned raised: %r' % (exc,), dict(wit, new_flags=flags2))
+            ctx.raised(exc, 'reflagged:fit-raised', 'fitting a source object whose flags / values were re-assigned raised: %r' % (exc,), dict(wit, new_flags=flags2))
             rl = None
         if rl is not None:
             ctx.event('pair:live-source-reflagged')
@@ -225,7 +230,7 @@ def check_vector(ctx, rng, st, flags):
         try:
             h = fit(flags, fx, er)
         except Exception as exc:
-            ctx.violation('ignored:fit-raised', 'fit raised with hostile values in an ignored slot: %r' % (exc,),
+            ctx.raised(exc, 'ignored:fit-raised', 'fit raised with hostile values in an ignored slot: %r' % (exc,),
                           dict(wit, hostile_flux=fx, hostile_error=er))
             h = None
         if h is not None:
@@ -253,7 +258,7 @@ def check_vector(ctx, rng, st, flags):
                 sub = fit(flags[keep], flux[keep], err[keep], st.fitter(tuple(keep)))
             except Exception as exc:
                 sub = None
-                ctx.violation('ignored:sub-fit-raised', 'fit without the ignored band raised: %r' % (exc,), wit)
+                ctx.raised(exc, 'ignored:sub-fit-raised', 'fit without the ignored band raised: %r' % (exc,), wit)
             if sub is not None:
                 ctx.event('pair:band-removed')
                 sn = by_name(sub)
@@ -274,7 +279,7 @@ def check_vector(ctx, rng, st, flags):
         try:
             z = fit(f0, flux, err)
         except Exception as exc:
-            ctx.violation('limit:fit-raised', 'fit raised: %r' % (exc,), wit)
+            ctx.raised(exc, 'limit:fit-raised', 'fit raised: %r' % (exc,), wit)
             continue
         ctx.event('pair:limit-vs-flag0')
         zn = by_name(z)
@@ -327,7 +332,7 @@ def check_vector(ctx, rng, st, flags):
         try:
             q = fit(flags, flux, e0)
         except Exception as exc:
-            ctx.violation('limit:fit-raised', 'fit raised: %r' % (exc,), wit)
+            ctx.raised(exc, 'limit:fit-raised', 'fit raised: %r' % (exc,), wit)
             continue
         ctx.event('pair:confidence0-vs-flag0')
         # compare with flag-0 fit of the *same* other-limit confidences
@@ -351,7 +356,7 @@ def check_vector(ctx, rng, st, flags):
             g = fit(f4, fx, er)
         except Exception as exc:
             g = None
-            ctx.violation('flag4:fit-raised', 'fit raised: %r' % (exc,), wit)
+            ctx.raised(exc, 'flag4:fit-raised', 'fit raised: %r' % (exc,), wit)
         if g is not None:
             ctx.event('pair:flag1-as-flag4')
             # "identical fits": the fit of the rewritten source must be the optimum for the ORIGINAL flag-1 data
